@@ -29,4 +29,75 @@ theorem write_mem_other (s : St K) (b b' : Nat) (v : Vec K) (h : b' ≠ b) :
 @[simp] theorem bind_err (e : Err) (s : St K) (f : Nat → St K → Res K) :
     (Res.err e s).bind f = Res.err e s := rfl
 
+/-! ### Row values of the block lists built by `rowsFrom` / `colsFrom` (round 4) -/
+
+section
+variable [Add K] [Mul K]
+
+/-- Blocks of other rows do not contribute to row `i`. -/
+theorem rowDen_other (xv : Nat → Vec K) (i : Nat) (es : List (Entry K))
+    (h : ∀ e ∈ es, e.row ≠ i) (acc : Vec K) : rowDen xv es i acc = acc := by
+  induction es generalizing acc with
+  | nil => rfl
+  | cons e r ih =>
+    simp only [rowDen]
+    rw [if_neg (h e (by simp))]
+    exact ih (fun e' he' => h e' (by simp [he'])) acc
+
+omit [Add K] [Mul K] in
+theorem rowsFrom_rows (colOf : Nat → Nat) (ops : List (Op K)) (k : Nat) :
+    ∀ e ∈ rowsFrom colOf k ops, k ≤ e.row ∧ e.row < k + ops.length ∧ e.col = colOf e.row ∧
+      e.op ∈ ops := by
+  induction ops generalizing k with
+  | nil => intro e he; simp [rowsFrom] at he
+  | cons o r ih =>
+    intro e he
+    simp only [rowsFrom, List.mem_cons] at he
+    rcases he with rfl | he
+    · exact ⟨Nat.le_refl _, by simp, rfl, by simp⟩
+    · obtain ⟨h1, h2, h3, h4⟩ := ih (k + 1) e he
+      exact ⟨by omega, by simp only [List.length_cons]; omega, h3, by simp [h4]⟩
+
+/-- Row `i` of a broadcast / diagonal block list holds `acc + ⟦op_i⟧(x_{colOf i})`. -/
+theorem rowDen_rowsFrom (xv : Nat → Vec K) (colOf : Nat → Nat) (ops : List (Op K)) (k i : Nat)
+    (op : Op K) (hk : k ≤ i) (hop : ops[i - k]? = some op) (acc : Vec K) :
+    rowDen xv (rowsFrom colOf k ops) i acc = fun j => acc j + den op (xv (colOf i)) j := by
+  induction ops generalizing k acc with
+  | nil => simp at hop
+  | cons o r ih =>
+    simp only [rowsFrom, rowDen]
+    by_cases hki : k = i
+    · subst hki
+      simp only [Nat.sub_self, List.getElem?_cons_zero, Option.some.injEq] at hop
+      subst hop
+      rw [if_pos rfl]
+      exact rowDen_other xv k _ (fun e he => by
+        have := (rowsFrom_rows colOf r (k + 1) e he).1; omega) _
+    · rw [if_neg hki]
+      have h1 : i - k = (i - (k + 1)) + 1 := by omega
+      rw [h1, List.getElem?_cons_succ] at hop
+      exact ih (k + 1) (by omega) hop acc
+
+omit [Add K] [Mul K] in
+theorem colsFrom_cols (ops : List (Op K)) (k : Nat) :
+    ∀ e ∈ colsFrom k ops, e.row = 0 ∧ k ≤ e.col ∧ e.col < k + ops.length ∧ e.op ∈ ops := by
+  induction ops generalizing k with
+  | nil => intro e he; simp [colsFrom] at he
+  | cons o r ih =>
+    intro e he
+    simp only [colsFrom, List.mem_cons] at he
+    rcases he with rfl | he
+    · exact ⟨rfl, Nat.le_refl _, by simp, by simp⟩
+    · obtain ⟨h1, h2, h3, h4⟩ := ih (k + 1) e he
+      exact ⟨h1, by omega, by simp only [List.length_cons]; omega, by simp [h4]⟩
+
+/-- Row 0 of a reduction block list is the left-to-right sum `redSum`. -/
+theorem rowDen_colsFrom (xv : Nat → Vec K) (ops : List (Op K)) (k : Nat) (acc : Vec K) :
+    rowDen xv (colsFrom k ops) 0 acc = redSum xv k ops acc := by
+  induction ops generalizing k acc with
+  | nil => rfl
+  | cons o r ih => simp only [colsFrom, rowDen, redSum, if_true]; exact ih (k + 1) _
+
+end
+
 end OdlModel.Call.Lemmas
